@@ -27,6 +27,7 @@ Definition labels (s : state) (tid : nat) : list label := map fst (stack (thr s 
 
 Section Step.
 Variable loads : label -> list label.
+Variable bad : label -> bool.
 
 Inductive kstep (s : state) (tid : nat) : state -> Prop :=
 | KStartHit : forall r, ph (thr s tid) = PStart r -> In r (registry s) ->
@@ -34,7 +35,7 @@ Inductive kstep (s : state) (tid : nat) : state -> Prop :=
 | KStartMiss : forall r, ph (thr s tid) = PStart r -> ~ In r (registry s) ->
     kstep s tid (set_thr (add_exec (add_reg s r) r) tid (mkT [(r, loads r)] PExec))
 | KDone : forall m rest, ph (thr s tid) = PExec -> stack (thr s tid) = (m, []) :: rest ->
-    kstep s tid (set_thr (set_done s m true) tid (mkT rest (after_pop rest true)))
+    kstep s tid (set_thr (set_done s m (negb (bad m))) tid (mkT rest (after_pop rest (negb (bad m)))))
 | KFail : forall m ls rest, ph (thr s tid) = PFail -> stack (thr s tid) = (m, ls) :: rest ->
     kstep s tid (set_thr (set_done s m false) tid (mkT rest (after_pop rest false)))
 | KHit : forall m t ls rest, ph (thr s tid) = PExec -> stack (thr s tid) = (m, t :: ls) :: rest ->
@@ -68,7 +69,7 @@ Inductive kstep (s : state) (tid : nat) : state -> Prop :=
 | KRet : forall r m ls rest, ph (thr s tid) = PRet r -> stack (thr s tid) = (m, ls) :: rest ->
     kstep s tid (set_thr (set_loading s m None) tid (mkT ((m, ls) :: rest) (if r then PExec else PFail))).
 
-Lemma step_kstep : forall s tid s', step loads s tid = Some s' -> tid < nthr s /\ kstep s tid s'.
+Lemma step_kstep : forall s tid s', step loads bad s tid = Some s' -> tid < nthr s /\ kstep s tid s'.
 Proof.
   intros s tid s' H. unfold step, step_ev in H.
   destruct (Nat.ltb_spec tid (nthr s)) as [Hlt|Hge]; cbn [negb] in H; [|discriminate].
@@ -109,7 +110,7 @@ Qed.
 Lemma step_enabled : forall s tid, tid < nthr s ->
   stack (thr s tid) <> [] ->
   match ph (thr s tid) with PExec | PFail | PMissEdge _ | PHitEdge _ | PWalk _ _ _ | PRet _ => True | _ => False end ->
-  step loads s tid <> None.
+  step loads bad s tid <> None.
 Proof.
   intros s tid Hlt Hst Hph. unfold step, step_ev.
   destruct (Nat.ltb_spec tid (nthr s)); [|lia]. cbn [negb].
@@ -120,7 +121,7 @@ Proof.
     destruct (Nat.eqb l m); [discriminate|]. destruct (memb l seen); discriminate.
 Qed.
 
-Lemma step_enabled_start : forall s tid r, tid < nthr s -> ph (thr s tid) = PStart r -> step loads s tid <> None.
+Lemma step_enabled_start : forall s tid r, tid < nthr s -> ph (thr s tid) = PStart r -> step loads bad s tid <> None.
 Proof.
   intros s tid r Hlt Hph. unfold step, step_ev.
   destruct (Nat.ltb_spec tid (nthr s)); [|lia]. cbn [negb]. rewrite Hph.
@@ -128,7 +129,7 @@ Proof.
 Qed.
 
 Lemma step_enabled_wait : forall s tid t, tid < nthr s -> ph (thr s tid) = PWait t -> loaded (mods s t) = true ->
-  step loads s tid <> None.
+  step loads bad s tid <> None.
 Proof.
   intros s tid t Hlt Hph Hl. unfold step, step_ev.
   destruct (Nat.ltb_spec tid (nthr s)); [|lia]. cbn [negb]. rewrite Hph, Hl.
